@@ -106,6 +106,31 @@ def select(ctx, confs, rng):
                     and c["scripts"][-1][0]["op"].startswith("image.copy") and (len(c["scripts"]) == 2 or c["par"] == 2) \
                     and c["tmo"] in ("default", "none" if c["par"] == 1 else "default"):
                 chosen[i] = True
+    # producer -> write pairs: what is written (object of a get of an image / of an index / of a head
+    # request / blob / config) x where to, relative to where it came from (same repository, other
+    # repository of the registry, other registry, layout); the first config of every class
+    def loc_of(x):
+        return x.split(":")[0]
+
+    def relation(src, tgt):
+        if tgt == "lay" or src == "lay":
+            return "lay" if tgt == "lay" else "from-lay"
+        if src == tgt:
+            return "same-repo"
+        return "same-registry" if src[0] == tgt[0] else "other-registry"
+    seen = set()
+    for i, c in enumerate(confs):
+        if len(c["scripts"]) == 1 and len(c["scripts"][0]) == 2 and (c["wname"], c["mt"], c["feat"], c["cmd"]) == ("A", "oci", "full", "once"):
+            a, b = c["scripts"][0]
+            if b["op"] in WRITE_OPS and a["op"] not in WRITE_OPS and loc_of(a["x"]) in ("a1", "a2", "b1", "lay"):
+                tgt = loc_of(b["y"] if b["op"].startswith("image.copy") else b["x"])
+                if tgt not in ("a1", "a2", "b1", "lay"):
+                    tgt = loc_of(a["x"])  # the object itself names the place (m:delete, tag.delete($m), ...)
+                key = (a["op"], a["x"].split(":")[-1] if ":" in a["x"] else a["y"], b["op"], b["y"] if b["op"] in ("blob.put", "b:put") else "",
+                       relation(loc_of(a["x"]), tgt))
+                if key not in seen:
+                    seen.add(key)
+                    chosen[i] = True
     # every way of aborting (error of a string / table / number / ..., runtime fault, stack overflow) in
     # front of another script: sequential, parallel 1, parallel 2, and under `regbot server`
     seen = set()
